@@ -56,6 +56,8 @@ class SeriesV:
         if attr == "astype":
             return M("Series.astype", lambda I, t=None, **k: SeriesV(I.call(I.getattr(lnp.as_arr(I, v), "astype"), [t], {}), self.index, self.name))
         if attr in ("min", "max", "sum", "any", "all", "searchsorted", "tolist", "copy", "dtype", "shape", "size"):
+            if attr in ("any", "all", "sum", "min", "max"):
+                return M("Series." + attr, lambda I, **kw: I.call(I.getattr(lnp.as_arr(I, v), attr, node), [], {}))
             return I.getattr(lnp.as_arr(I, v), attr, node)
         if attr == "cat":
             return _Cat(self)
@@ -163,6 +165,12 @@ class DataFrameV:
         return self.n
 
     def pyvc_getitem(self, I, key, node):
+        if isinstance(key, SeriesV):
+            key = key.values
+        if isinstance(key, Arr) and key.kind == "bool":
+            # boolean-mask row selection: the same filter applied to every column
+            cols = {c: lnp.arr_getitem(I, lnp.as_arr(I, a), key, node) for c, a in self.cols.items()}
+            return DataFrameV(cols, None, None)
         if isinstance(key, str):
             if key not in self.cols:
                 raise PyRaise(ExcVal("KeyError", (key,)))
@@ -206,7 +214,76 @@ class DataFrameV:
             return M("DataFrame.rename", rename)
         if attr == "index":
             return self.index if self.index is not None else lnp.np_arange(I, self.n)
+        if attr == "head":
+            return M("DataFrame.head", lambda I, n=5: self)
+        if attr == "to_csv":
+            return M("DataFrame.to_csv", lambda I, *a, **k: "<csv text>")
+        if attr == "duplicated":
+            return M("DataFrame.duplicated", lambda I, subset=None, keep="first", **kw: self.duplicated(I, subset, keep))
+        if attr == "sort_values":
+            return M("DataFrame.sort_values", lambda I, by=None, **kw: self.sort_values(I, by, kw))
+        if attr == "items":
+            return M("DataFrame.items", lambda I: [(c, SeriesV(a, self.index, c)) for c, a in self.cols.items()])
+        if attr == "keys":
+            return M("DataFrame.keys", lambda I: list(self.cols.keys()))
         raise Unsupported(f"DataFrame.{attr} has no assumed contract")
+
+    def _same_key(self, I, subset, k1, k2):
+        cols = list(self.cols.keys()) if subset is None else list(subset)
+        for c in cols:
+            if c not in self.cols:
+                raise PyRaise(ExcVal("KeyError", (c,)))
+        return z3.And(*[lnp.as_arr(I, self.cols[c]).at(k1) == lnp.as_arr(I, self.cols[c]).at(k2) for c in cols])
+
+    def duplicated(self, I, subset, keep):
+        """DataFrame.duplicated(subset, keep): row k is marked iff another row with the same key exists
+        before it (keep='first'), after it (keep='last'), anywhere (keep=False)"""
+        _use("DataFrame.duplicated")
+        p = I.path
+        n = self.n
+        d = p.fresh_arr("is_dup", "bool", n=n)
+        w = z3.Function(p.fresh_name("dup.w"), z3.IntSort(), z3.IntSort())
+        same = lambda a, b: self._same_key(I, subset, a, b)
+        if keep == "first":
+            other_ok = lambda k, o: o < k
+        elif keep == "last":
+            other_ok = lambda k, o: o > k
+        elif keep is False:
+            other_ok = lambda k, o: o != k
+        else:
+            raise Unsupported("duplicated(keep=...)")
+        p.assume(spec.forall(0, n, lambda k: z3.Implies(d.at(k), z3.And(w(k) >= 0, w(k) < n, other_ok(k, w(k)), same(k, w(k))))))
+        p.assume(spec.forall2(0, n, 0, n, lambda k, o: z3.Implies(z3.And(other_ok(k, o), same(k, o)), d.at(k))))
+        return SeriesV(d, None, None)
+
+    def sort_values(self, I, by, kw):
+        """sort_values(by): a permutation of the rows, lexicographically non-decreasing in `by`"""
+        _use("DataFrame.sort_values")
+        if kw:
+            raise Unsupported("sort_values options")
+        by = [by] if isinstance(by, str) else list(by)
+        p = I.path
+        n = self.n
+        perm = z3.Function(p.fresh_name("sort.perm"), z3.IntSort(), z3.IntSort())
+        inv = z3.Function(p.fresh_name("sort.inv"), z3.IntSort(), z3.IntSort())
+        p.assume(spec.forall(0, n, lambda k: z3.And(perm(k) >= 0, perm(k) < n, inv(perm(k)) == k)))
+        p.assume(spec.forall(0, n, lambda k: z3.And(inv(k) >= 0, inv(k) < n, perm(inv(k)) == k)))
+        cols = {}
+        for c, a in self.cols.items():
+            fa = lnp.as_arr(I, a).at
+            cols[c] = Arr(n, lambda k, fa=fa: fa(perm(k)), lnp.as_arr(I, a).kind)
+        keyat = [cols[c].at for c in by]
+
+        def leq(k1, k2):
+            # lexicographic <=
+            r = z3.BoolVal(True)
+            for f in reversed(keyat):
+                r = z3.Or(f(k1) < f(k2), z3.And(f(k1) == f(k2), r))
+            return r
+        p.assume(spec.forall2(0, n, 0, n, lambda k1, k2: z3.Implies(k1 <= k2, leq(k1, k2))))
+        out = DataFrameV(cols, None, None)
+        out._perm = perm
+        return out
 
     def drop_duplicates(self, I, subset, keep):
         """drop_duplicates(["chrom"], keep="last") on a frame whose chrom column is sorted into
